@@ -258,7 +258,7 @@ class ImmutableFileNode:
 
     def __ne__(self, other):
         if isinstance(other, ImmutableFileNode):
-            return self.u.__eq__(other.u)
+            return not self.u.__eq__(other.u)
         else:
             return True
 
